@@ -21,6 +21,7 @@ import StepModel.ComplexSim
 import StepModel.ComplexTreeKeep
 import StepModel.ComplexExhaust
 import StepModel.ComplexCount
+import StepModel.ComplexAdvance
 /-!
 # C08 — complex instances are accepted exactly when the supertype constraints allow them
 
@@ -640,6 +641,36 @@ theorem C08_acceptChoice_skips_nothing_partial (N : List Name) (hN : N.Pairwise 
     (hnd : (lvSL cs).Nodup) (hout : ∀ n ∈ lvSL cs, o n = 0) (htidy : TidyL cs) (hip : i ≤ p) (hp : cs[p]? = some chp)
     (hpa : PA N chp) : ∃ j, r.2.2 = some j ∧ i ≤ j ∧ j ≤ p :=
   acceptOr_progress N hN f cs i es r o p chp h hnm hfr h0 hnd hout htidy hip hp hpa
+
+/-- `C08_acceptChoice_skips_nothing_partial` with the leaf hypotheses only on the alternative at `p` (its leaves distinct
+and not held outside the OrList): the *other* alternatives may repeat its names, as in the `OR(b, AND(b, …))` of a
+non-abstract sub-supertype.  Still excluded: repeated names *inside* the alternative at `p` (a second non-abstract
+sub-supertype nested below it). -/
+theorem C08_acceptChoice_skips_nothing_repeated_partial (N : List Name) (hN : N.Pairwise (· < ·)) (f : Nat) (cs : List ST)
+    (i : Nat) (es : Ents) (r : List ST × Ents × Option Nat) (o : Name → Nat) (p : Nat) (chp : ST)
+    (h : acceptOr f cs i es = .ok r) (hnm : names es = N) (hfr : FrL o cs es) (h0 : holdsL cs = [])
+    (hnd : (lvS chp).Nodup) (hout : ∀ n ∈ lvS chp, o n = 0) (htidy : TidyL cs) (hip : i ≤ p) (hp : cs[p]? = some chp)
+    (hpa : PA N chp) : ∃ j, r.2.2 = some j ∧ i ≤ j ∧ j ≤ p :=
+  acceptOr_progress' N hN f cs i es r o p chp h hnm hfr h0 hnd hout htidy hip hp hpa
+
+/-- **The positive step of an odometer digit** (partial: the later alternative has distinct leaves, none held outside the
+OrList; the state satisfies the invariants every state reached by the matcher satisfies — frame `Fr`, `Tidy`, `ChK`,
+OrLists shorter than LISTEND).  An OrList standing at alternative `c`, `choiceCount ≠ 1`, with a later alternative `p`
+that counts (`PA`): `OrList::tryNext` answers MATCHALL or NEWCHOICE — never NOMORE — and the new `choice` lies in
+`[c, p]`: `c` when the current alternative itself could step, otherwise the first later alternative that accepts, which is
+not beyond `p`.  With `C08_nomore_exhausted` (NOMORE ⇒ at LISTEND) and `C08_choiceCount_counts` (`choiceCount = 1` ⇒ no
+other alternative counts) this is the single-digit specification of the odometer; the carry between digits
+(`MultList::tryNext` + re-acceptance) and the induction over vectors are what completeness with repeated leaves still
+lacks. -/
+theorem C08_tryNext_advances_partial (N : List Name) (hN : N.Pairwise (· < ·)) (f : Nat) (v : MT) (c c1 : Int) (k : Nat)
+    (cs : List ST) (es : Ents) (r : ST × Ents × MT) (o : Name → Nat) (p : Nat) (chp : ST)
+    (h : tryNext f (.mult .or v c c1 k cs) es = .ok r) (hnm : names es = N)
+    (hfr : Fr o (.mult .or v c c1 k cs) es) (htidy : Tidy (.mult .or v c c1 k cs)) (hchk : ChK (.mult .or v c c1 k cs))
+    (hsm : smallOr (skel (.mult .or v c c1 k cs))) (hk : k ≠ 1)
+    (hcp : c < (p : Int)) (hp : cs[p]? = some chp) (hpa : PA N chp) (hnd : (lvS chp).Nodup)
+    (hout : ∀ n ∈ lvS chp, o n = 0) :
+    (r.2.2 = .all ∨ r.2.2 = .newchoice) ∧ ∃ c' cs', r.1 = .mult .or v c' c1 k cs' ∧ c ≤ c' ∧ c' ≤ (p : Int) :=
+  tryNext_or_advances N hN f v c c1 k cs es r o p chp h hnm hfr htidy hchk hsm hk hcp hp hpa hnd hout
 
 /-- **`choiceCount` counts, `choice1` is the first alternative that counts** — what the `choiceCount == 1` shortcut of
 `OrList::tryNext` relies on.  Every well-formed OrList (any nesting below it) in its reset state, every request:
